@@ -1,7 +1,16 @@
 import AGV.Lemmas.ValidateStateless
+import AGV.Lemmas.ValidateSpecNodes
 namespace AGV.Lemmas.ValidateRules
-open AGV.Core AGV.Model.Validate AGV.Lemmas.ValidateWalk
+open AGV.Core AGV.Model.Validate AGV.Lemmas.ValidateWalk AGV.Lemmas.ValidateSpecNodes
 open AGV.Spec.Validate (tyDef)
+
+instance : LawfulBEq Core.Kind where
+  rfl := by intro a; cases a <;> rfl
+  eq_of_beq := by intro a b h; cases a <;> cases b <;> first | rfl | (exact absurd h (by decide))
+
+instance : LawfulBEq OpType where
+  rfl := by intro a; cases a <;> rfl
+  eq_of_beq := by intro a b h; cases a <;> cases b <;> first | rfl | (exact absurd h (by decide))
 
 section
 variable (S : VSchema) (d : Doc)
@@ -35,6 +44,11 @@ theorem mem_docSels (hs : Served S d) (s : Sel) :
       have := hs o ho
       cases hr : rootOf S o.ty <;> simp_all
 
+theorem docSels_served (hs : Served S d) (s : Sel) : s ∈ docSels S d ↔ s ∈ allSels d := by
+  rw [mem_docSels S d hs]
+  simp only [allSels, List.mem_append, List.mem_flatMap]
+  exact Or.comm
+
 /-- KnownFragmentNames = §5.5.2.1 -/
 theorem rule_known_fragment_names (hs : Served S d) :
     Kind.unknownFragment ∈ (events S {} d).flatMap (stateless S {} d) ↔
@@ -64,5 +78,158 @@ theorem rule_known_fragment_names (hs : Served S d) :
     rcases hs with ⟨o, ho, ds, p, h'⟩ | ⟨f, hf', ds, p, h'⟩
     · exact ⟨_, Or.inr ⟨o, ho, h'⟩, n, ds, p, rfl, (hf n).mpr h⟩
     · exact ⟨_, Or.inl ⟨f, hf', h'⟩, n, ds, p, rfl, (hf n).mpr h⟩
+
+/-- the walker's own report = "operation type not served" -/
+theorem rule_not_configured :
+    Kind.notConfigured ∈ (events S {} d).flatMap (stateless S {} d) ↔
+      Spec.Validate.violates_OperationTypeExists S d = true := by
+  rw [mem_stateless_events]
+  have h1 : ∀ f, Kind.notConfigured ∉ fragOut S d f := by
+    intro f; simp [fragOut, dirsOut, mem_stateless_enterFrag, mem_stateless_enterDir]
+  have h2 : ∀ o, Kind.notConfigured ∈ opOut S d o ↔ rootOf S o.ty = none := by
+    intro o; unfold opOut
+    cases rootOf S o.ty <;> simp [dirsOut, mem_stateless_enterOp, mem_stateless_enterVar, mem_stateless_enterDir]
+  have h3 : ∀ st s, Kind.notConfigured ∉ nodeOut S d st s := by
+    intro st s
+    cases s <;> simp [nodeOut, dirsOut, mem_stateless_enterField, mem_stateless_enterSpread, mem_stateless_enterInline, mem_stateless_enterDir]
+  simp [h1, h2, h3, Spec.Validate.violates_OperationTypeExists, rootOf_eq]
+
+theorem exists_eq_tyDef (n : String) : S.exists? n = (tyDef S n).isSome := rfl
+
+/-- some variable of some operation has a type that is not in the schema -/
+def varTypeUnknown : Prop := ∃ o ∈ d.ops, ∃ v ∈ o.vars, S.exists? v.ty.base = false
+
+/-- KnownTypeNames = §5.5.1.2 (type conditions) + the existence half of §5.8.2 (variable types) -/
+theorem rule_known_type_names (hs : Served S d) :
+    Kind.unknownType ∈ (events S {} d).flatMap (stateless S {} d) ↔
+      (Spec.Validate.violates_FragmentSpreadTypeExistence S d = true ∨ varTypeUnknown S d) := by
+  rw [mem_stateless_events]
+  have h1 : ∀ f, Kind.unknownType ∈ fragOut S d f ↔ S.exists? f.cond = false := by
+    intro f; simp [fragOut, dirsOut, mem_stateless_enterFrag, mem_stateless_enterDir]
+  have h2 : ∀ o ∈ d.ops, (Kind.unknownType ∈ opOut S d o ↔ ∃ v ∈ o.vars, S.exists? v.ty.base = false) := by
+    intro o ho; unfold opOut
+    have := hs o ho
+    cases hr : rootOf S o.ty <;> simp_all [dirsOut, mem_stateless_enterOp, mem_stateless_enterVar, mem_stateless_enterDir]
+  have h3 : ∀ st s, Kind.unknownType ∈ nodeOut S d st s ↔ ∃ t ds ss p, s = .inline (some t) ds ss p ∧ S.exists? t = false := by
+    intro st s
+    cases s <;> simp [nodeOut, dirsOut, mem_stateless_enterField, mem_stateless_enterSpread, mem_stateless_enterInline, mem_stateless_enterDir]
+  simp only [h1, h3]
+  rw [exists_docVisits_snd S d (fun s => ∃ t ds ss p, s = .inline (some t) ds ss p ∧ S.exists? t = false)]
+  have hspec : Spec.Validate.violates_FragmentSpreadTypeExistence S d = true ↔
+      (∃ f ∈ d.frags, S.exists? f.cond = false) ∨ ∃ s ∈ allSels d, ∃ t ds ss p, s = .inline (some t) ds ss p ∧ S.exists? t = false := by
+    unfold Spec.Validate.violates_FragmentSpreadTypeExistence
+    rw [any_allNodes_syntactic S d _ (fun s => match s with | .inline (some c) _ _ _ => (tyDef S c).isNone | _ => false)]
+    · simp only [Bool.or_eq_true, List.any_eq_true, exists_eq_tyDef]
+      apply or_congr
+      · simp
+      · apply exists_congr; intro s
+        apply and_congr_right; intro _
+        cases s with
+        | inline c ds ss p => cases c <;> simp
+        | _ => simp
+    · intro p s
+      cases s with
+      | inline c ds ss p => cases c <;> simp [toNode]
+      | _ => simp [toNode]
+  rw [hspec]
+  simp only [docSels_served S d hs, varTypeUnknown]
+  constructor
+  · rintro (h | ⟨o, ho, h⟩ | h)
+    · exact Or.inl (Or.inl h)
+    · exact Or.inr ⟨o, ho, (h2 o ho).mp h⟩
+    · exact Or.inl (Or.inr h)
+  · rintro ((h | h) | ⟨o, ho, h⟩)
+    · exact Or.inl h
+    · exact Or.inr (Or.inr h)
+    · exact Or.inr (Or.inl ⟨o, ho, (h2 o ho).mpr h⟩)
+
+
+theorem isInput_eq (n : String) : S.isInput n = Spec.Validate.inputType S n := by
+  unfold VSchema.isInput VSchema.kindOf Spec.Validate.inputType Spec.Validate.kindIs
+  show (match Option.map (·.kind) (tyDef S n) with | some .scalar | some .enum | some .input => true | _ => false) = _
+  cases h : tyDef S n with
+  | none => simp
+  | some t => cases hk : t.kind <;> simp [hk]
+
+/-- VariablesAreInputTypes (+ the variable half of KnownTypeNames) = §5.8.2 -/
+theorem rule_variables_are_input_types (hs : Served S d) :
+    (Kind.varNonInput ∈ (events S {} d).flatMap (stateless S {} d) ∨ varTypeUnknown S d) ↔
+      Spec.Validate.violates_VariablesAreInputTypes S d = true := by
+  rw [mem_stateless_events]
+  have h1 : ∀ f, Kind.varNonInput ∉ fragOut S d f := by
+    intro f; simp [fragOut, dirsOut, mem_stateless_enterFrag, mem_stateless_enterDir]
+  have h2 : ∀ o ∈ d.ops, (Kind.varNonInput ∈ opOut S d o ↔ ∃ v ∈ o.vars, S.exists? v.ty.base = true ∧ S.isInput v.ty.base = false) := by
+    intro o ho; unfold opOut
+    have := hs o ho
+    cases hr : rootOf S o.ty <;> simp_all [dirsOut, mem_stateless_enterOp, mem_stateless_enterVar, mem_stateless_enterDir]
+  have h3 : ∀ st s, Kind.varNonInput ∉ nodeOut S d st s := by
+    intro st s
+    cases s <;> simp [nodeOut, dirsOut, mem_stateless_enterField, mem_stateless_enterSpread, mem_stateless_enterInline, mem_stateless_enterDir]
+  simp only [h1, h3, and_false, exists_false, false_or, or_false, varTypeUnknown,
+    Spec.Validate.violates_VariablesAreInputTypes, List.any_eq_true, ← isInput_eq]
+  constructor
+  · rintro (⟨o, ho, h⟩ | ⟨o, ho, v, hv, h⟩)
+    · obtain ⟨v, hv, _, h⟩ := (h2 o ho).mp h
+      exact ⟨o, ho, v, hv, by simp [h]⟩
+    · refine ⟨o, ho, v, hv, ?_⟩
+      have : S.isInput v.ty.base = false := by
+        unfold VSchema.isInput VSchema.kindOf
+        have : S.ty? v.ty.base = none := by simpa [VSchema.exists?] using h
+        simp [this]
+      simp [this]
+  · rintro ⟨o, ho, v, hv, h⟩
+    cases he : S.exists? v.ty.base
+    · exact Or.inr ⟨o, ho, v, hv, he⟩
+    · exact Or.inl ⟨o, ho, (h2 o ho).mpr ⟨v, hv, he, by simpa using h⟩⟩
+
+/-- the unknown-type report of DefaultValuesOfCorrectType is subsumed by KnownTypeNames -/
+theorem unknownTypeDefault_imp (hs : Served S d)
+    (h : Kind.unknownTypeDefault ∈ (events S {} d).flatMap (stateless S {} d)) : varTypeUnknown S d := by
+  rw [mem_stateless_events] at h
+  have h1 : ∀ f, Kind.unknownTypeDefault ∉ fragOut S d f := by
+    intro f; simp [fragOut, dirsOut, mem_stateless_enterFrag, mem_stateless_enterDir]
+  have h3 : ∀ st s, Kind.unknownTypeDefault ∉ nodeOut S d st s := by
+    intro st s
+    cases s <;> simp [nodeOut, dirsOut, mem_stateless_enterField, mem_stateless_enterSpread, mem_stateless_enterInline, mem_stateless_enterDir]
+  simp only [h1, h3, and_false, exists_false, false_or, or_false] at h
+  obtain ⟨o, ho, h⟩ := h
+  unfold opOut at h
+  have := hs o ho
+  cases hr : rootOf S o.ty with
+  | none => simp_all
+  | some r =>
+    simp only [hr, List.mem_append, List.mem_flatMap, dirsOut, mem_stateless_enterOp, mem_stateless_enterVar, mem_stateless_enterDir] at h
+    simp only [reduceCtorEq, false_and, or_false, false_or, exists_false, and_false, true_and] at h
+    obtain ⟨v, hv, n, hn, he⟩ := h
+    refine ⟨o, ho, v, hv, ?_⟩
+    have : v.ty.base = n := by
+      cases hv' : v.ty with
+      | named m => simp_all [TypeRef.nullable, TypeRef.base]
+      | list t => simp_all [TypeRef.nullable]
+      | nonNull t => simp_all [TypeRef.nullable, TypeRef.base]
+    rw [this]; exact he
+
+/-- UploadFile = the documented restriction (when the schema has an `Upload` type at all) -/
+theorem rule_upload :
+    Kind.upload ∈ (events S {} d).flatMap (stateless S {} d) ↔
+      (S.exists? "Upload" = true ∧ Spec.Validate.violates_UploadOnlyInMutations {} d = true) := by
+  rw [mem_stateless_events]
+  have h1 : ∀ f, Kind.upload ∉ fragOut S d f := by
+    intro f; simp [fragOut, dirsOut, mem_stateless_enterFrag, mem_stateless_enterDir]
+  have h2 : ∀ o, (Kind.upload ∈ opOut S d o ↔
+      o.vars.any (fun v => S.exists? v.ty.base && o.ty != .mutation && v.ty.base == "Upload") = true) := by
+    intro o; unfold opOut
+    cases hr : rootOf S o.ty <;> simp [dirsOut, mem_stateless_enterOp, mem_stateless_enterVar, mem_stateless_enterDir]
+  have h3 : ∀ st s, Kind.upload ∉ nodeOut S d st s := by
+    intro st s
+    cases s <;> simp [nodeOut, dirsOut, mem_stateless_enterField, mem_stateless_enterSpread, mem_stateless_enterInline, mem_stateless_enterDir]
+  simp only [h1, h2, h3, and_false, exists_false, false_or, or_false, Spec.Validate.violates_UploadOnlyInMutations,
+    List.any_eq_true, Bool.and_eq_true, beq_iff_eq, decide_eq_true_eq, Bool.true_and]
+  constructor
+  · rintro ⟨o, ho, v, hv, ⟨he, hm⟩, hu⟩
+    exact ⟨hu ▸ he, o, ho, hm, v, hv, hu⟩
+  · rintro ⟨he, o, ho, hm, v, hv, hu⟩
+    exact ⟨o, ho, v, hv, ⟨hu ▸ he, hm⟩, hu⟩
+
 end
 end AGV.Lemmas.ValidateRules
